@@ -96,7 +96,7 @@ def run(res, args):
         else:
             trim = (keep == 0) or gen == 1
             a = xmlcmp.norm_stream(xev, trim, False, False)
-            e2 = xmlcmp.norm_stream(exp, trim, True, True)
+            e2 = xmlcmp.norm_stream(exp, trim, False, True)   # CR is always written as &#13; (kept exactly); LF/TAB in attribute values are normalised by the reader
         stats['structure_compared'] += 1
         if a != e2:
             k = next((j for j in range(min(len(a), len(e2))) if a[j] != e2[j]), min(len(a), len(e2)))
